@@ -2,7 +2,7 @@
   C24 — Line-to-address debug mapping is one-to-one.   (partial)
   Proved for every line map whose blocks are disjoint and non-empty (what `from_blocks` accepts): the line of the i-th
   entry of a block maps to that entry's address (`get` inverts the enumeration `iter`), lines outside every block map
-  to nothing; when all recorded addresses are distinct, the address maps back to the line (`find` inverts `get`).
+  to nothing; when all recorded addresses are distinct, the address maps back to the line (`find_of_mem`: `find` inverts `get`).
   In pass 1 a line is recorded only for a statement inside a block that is not `.orig`, `.end` or `.external` (fix F6),
   and it is recorded as the location counter before the statement, i.e. the address of its first word.
   Not proved: that the addresses recorded for a whole well-formed program are distinct (needs the C02 location-counter
@@ -87,6 +87,62 @@ theorem get_of_iter (m : LineMap) (hno : notOverlapping m = true) (hne : NonEmpt
   obtain ⟨hi, hx⟩ := mem_zip_range ws i x hp
   rw [get_of_mem m hno hne s ws hb i hi, hx]
 
+/-- all addresses recorded in the map are pairwise different (what "no address maps to two lines" means) -/
+def DistinctAddrs (m : LineMap) : Prop := (m.flatMap (·.2)).Nodup
+
+theorem idxOf_spec (a : W) : ∀ (ws : List W) (k i : Nat) (hi : i < ws.length), ws[i] = a → (∀ j (hj : j < i), ws[j]'(by omega) ≠ a) →
+    idxOf a ws k = some (k + i) := by
+  intro ws
+  induction ws with
+  | nil => intro k i hi; simp at hi
+  | cons x xs ih =>
+    intro k i hi hget hfirst
+    unfold idxOf
+    cases i with
+    | zero => simp only [List.getElem_cons_zero] at hget; simp [hget]
+    | succ i =>
+      have hx : x ≠ a := by have := hfirst 0 (by omega); simpa using this
+      rw [if_neg hx]
+      have := ih (k + 1) i (by simpa using hi) (by simpa using hget) (by intro j hj; have := hfirst (j + 1) (by omega); simpa using this)
+      rw [this]; congr 1; omega
+
+theorem idxOf_none (a : W) : ∀ (ws : List W) (k : Nat), a ∉ ws → idxOf a ws k = none := by
+  intro ws
+  induction ws with
+  | nil => intro k _; rfl
+  | cons x xs ih =>
+    intro k h
+    unfold idxOf
+    have hx : x ≠ a := fun e => h (by rw [e]; simp)
+    rw [if_neg hx]
+    exact ih (k + 1) (fun hm => h (List.mem_cons_of_mem _ hm))
+
+/-- with pairwise different addresses, the address maps back to its line: `rev_lookup_line` inverts `lookup_line` -/
+theorem find_of_mem (m : LineMap) (hd : DistinctAddrs m) (s : Nat) (ws : List W) (hm : (s, ws) ∈ m) (i : Nat) (hi : i < ws.length) :
+    m.find ws[i] = some (s + i) := by
+  unfold LineMap.find
+  induction m with
+  | nil => cases hm
+  | cons x xs ih =>
+    obtain ⟨s0, w0⟩ := x
+    unfold DistinctAddrs at hd
+    simp only [List.flatMap_cons, List.nodup_append] at hd
+    obtain ⟨hd0, hdr, hdis⟩ := hd
+    rcases List.mem_cons.mp hm with heq | hm'
+    · cases heq
+      have : idxOf ws[i] ws 0 = some (0 + i) := by
+        apply idxOf_spec _ ws 0 i hi rfl
+        intro j hj hje
+        have := (List.getElem_inj hd0).mp hje
+        omega
+      simp [List.findSome?, this]
+    · have hnot : ws[i] ∉ w0 := by
+        intro hin
+        have : ws[i] ∈ xs.flatMap (·.2) := List.mem_flatMap.mpr ⟨(s, ws), hm', List.getElem_mem hi⟩
+        exact hdis _ hin _ this rfl
+      simp only [List.findSome?, idxOf_none _ w0 0 hnot, Option.map_none]
+      exact ih hdr hm'
+
 /-- statements that occupy no memory or open/close a block never record a line -/
 theorem no_line_for_markers (st : P1) (stmt : Stmt) (cursor : Option Cursor) (labels : List (Key × SymData)) (rel : List (W × Key))
     (st' : P1) (hk : noLine stmt.nucleus = true) (h : p1Advance st stmt cursor labels rel = .ok st') : st'.lines = st.lines := by
@@ -122,6 +178,6 @@ example : noLine (.directive (.orig 0x3000)) = true ∧ noLine (.directive .end_
   ⟨rfl, rfl, rfl, rfl, rfl⟩
 
 def obligations : List Lean.Name :=
-  [``keys_ge, ``lastLE_of_mem, ``get_of_mem, ``get_of_iter, ``no_line_for_markers, ``line_recorded, ``no_line_outside_block]
+  [``keys_ge, ``lastLE_of_mem, ``get_of_mem, ``get_of_iter, ``find_of_mem, ``no_line_for_markers, ``line_recorded, ``no_line_outside_block]
 
 end Lc3V.C24
